@@ -749,6 +749,26 @@ def sim(cj, tracers):
 REPRO['not-saved:cj'] = _BPM + '''m = sim([1., 2., 3.], ['a', 'b', 'c']); m.save_sim(os.path.join(d, 'b.nc'), 'prf.nc', 'info')
 print(m.cj, bent_plume_model.Model(simfile=os.path.join(d, 'b.nc')).cj)     # [1. 2. 3.]  vs  3.0
 '''
+REPRO['not-restored:K_T:bpm-load-heat-off'] = '''import numpy as np, tempfile, os, io, contextlib
+from tamoc import ambient, dbm, dispersed_phases, bent_plume_model
+d = tempfile.mkdtemp(); z = np.linspace(0., 400., 30)
+T = 277. + 15. * np.exp(-z / 200.); S = 34. + z / 800.; P = ambient.compute_pressure(z, T, S, 0)
+nc = ambient.create_nc_db(os.path.join(d, 'prf.nc'), 's', 'src', 'sea', 0., 0., 0.)
+nc = ambient.fill_nc_db(nc, np.vstack((z, T, S, P)).T, ['z', 'temperature', 'salinity', 'pressure'], ['m', 'K', 'psu', 'Pa'], ['a'] * 4, 0)
+prf = ambient.Profile(nc, chem_names='all'); prf.close_nc()
+Ta = prf.get_values(300., ['temperature'])[0]
+oil = dbm.InsolubleParticle(True, True)
+# particle 4.7 K warmer than the water, jet 5 K warmer: at the first row the particle is within 0.5 K of the plume water
+m0, T0, nb0, P0, Sa, Tamb = dispersed_phases.initial_conditions(prf, 300., oil, np.array([1.]), 0.1, 2, 0.003, Ta + 4.7)
+p = bent_plume_model.Particle(0., 0., 300., oil, m0, T0, nb0, 0.9, P0, Sa, Tamb, K_T=0.6)
+m = bent_plume_model.Model(prf)
+with contextlib.redirect_stdout(io.StringIO()):
+    m.simulate(np.array([0., 0., 300.]), 0.2, 1., -np.pi / 2, 0., 0., Ta + 5., np.array([1.]), ['a'], [p], dt_max=60., sd_max=50.)
+    m.save_sim(os.path.join(d, 'b.nc'), 'prf.nc', 'info')
+    m2 = bent_plume_model.Model(simfile=os.path.join(d, 'b.nc'))
+print('original  K_T0', m.K_T0, 'particle K_T', m.particles[0].K_T)       # [0.6] 0.6
+print('reloaded  K_T0', m2.K_T0, 'particle K_T', m2.particles[0].K_T)     # [0.6] 0.0
+'''
 REPRO['save-raises:bpm:no-tracers'] = _BPM + '''m = sim([], []); m.save_sim(os.path.join(d, 'b.nc'), 'prf.nc', 'info')      # IndexError
 '''
 REPRO['load-raises:bpm:no-profile'] = _BPM + '''m = sim([1.], ['a']); m.save_sim(os.path.join(d, 'b.nc'), 'moved_away.nc', 'info')
@@ -794,7 +814,7 @@ def dumps_equal(d1, d2):
     return not diff_files(d1, {'attrs': d2['attrs'], 'dims': d2['dims'], 'vars': d2['vars']}, skip_attr_values=DATE_ATTRS)
 
 
-def report_losses(ctx, diffs, orig_particles, where, spec, prefix='', chem=None, skip=()):
+def report_losses(ctx, diffs, orig_particles, where, spec, prefix='', chem=None, skip=(), override=None):
     """turn field differences between an original and a reloaded record into violations"""
     for field, a, b in diffs:
         mobj = re.match(r'particles\[(\d+)\]\.', field)
@@ -835,6 +855,8 @@ def report_losses(ctx, diffs, orig_particles, where, spec, prefix='', chem=None,
             elif subset and f in ('delta', 'delta_groups') and np.shape(a) != np.shape(b):
                 ctx.count('consequence of the relabelled composition (%s shape)' % f)
                 continue
+        if override and field in override:
+            key = override[field]
         key = prefix + (key or loss_key(field, a, b, odbm))
         ctx.count('violation ' + key)
         case = {'where': where, 'field': field, 'original': a, 'reloaded': b, 'spec': sc.jsonable(spec)}
@@ -1183,9 +1205,27 @@ def is_0d(x):
 def pstates(m):
     """the state LagElement.update left in the particles of a (re)loaded bent-plume model"""
     out = [N(len(m.particles))]
-    for p in m.particles:
-        out += [B(bool(p.integrate)), F(fnum(p.t)), F(fnum(p.x)), F(fnum(p.y)), F(fnum(p.z))]
+    for i, p in enumerate(m.particles):
+        heat_off = fnum(p.K_T) == 0. and fnum(np.ravel(m.K_T0)[i]) != 0.
+        out += [B(heat_off), B(bool(p.integrate)), F(fnum(p.t)), F(fnum(p.x)), F(fnum(p.y)), F(fnum(p.z))]
     return out
+
+
+def row0_temperatures(rec):
+    """(temperature of the first Lagrangian element, temperature of each particle) from the first row of the bent-plume
+    solution, by the state-vector layout (bent_plume_model.LagElement.update l.3113-3215): q[0] mass, q[2] heat of the
+    element (cp = seawater.cp()); per particle nc masses, heat (cp_p = 0.5 seawater.cp()), age, three coordinates"""
+    from tamoc import seawater
+    q0 = np.asarray(rec['q'])[0]
+    cp = float(seawater.cp())
+    Te = q0[2] / (q0[0] * cp)
+    Tp, idx = [], 11
+    for p in rec['particles']:
+        nc = len(p['m0'])
+        Mp, Hp = q0[idx:idx + nc], q0[idx + nc]
+        Tp.append(Hp / (np.sum(Mp) * 0.5 * cp))
+        idx += nc + 5
+    return float(Te), [float(x) for x in Tp]
 
 
 def require_unchanged(ctx, kind, before, after, where, spec, what, skip=()):
@@ -1280,8 +1320,21 @@ def check_sim(ctx, job, cdir, kind, m, spec, tag):
         if isinstance(arr, np.ma.MaskedArray) and np.ma.getmaskarray(arr).any():
             _viol(ctx, 'array:%s:masked' % k, '%s: reloaded %s has masked entries' % (where, k), {'spec': sc.jsonable(spec)})
         ctx.evaluations += int(np.size(arr))
+    override = {}
+    if kind == 'bpm':
+        # recorded defect: LagElement.update at the first row switches K_T off for a particle within 0.5 K of the plume water
+        # and load_sim (unlike simulate) never restores it from K_T0.  Signature verified here: original K_T > 0, reloaded
+        # K_T == 0, the reloaded model's K_T0 still right, and the first-row temperatures (computed by the harness from
+        # the state vector) within 0.5 K of each other.
+        Te, Tp = row0_temperatures(rec)
+        for i, (pa, pb) in enumerate(zip(rec['particles'], rec2['particles'])):
+            near_jet = abs(Te - Tp[i]) < 0.5
+            if near_jet and pa['K_T'] > 0.:
+                ctx.count('bpm particle with K_T > 0 within 0.5 K of the plume water at the first row')
+            if pa['K_T'] > 0. and pb['K_T'] == 0. and same(np.ravel(rec2['K_T0'])[i], pa['K_T']) and near_jet:
+                override['particles[%d].K_T' % i] = 'not-restored:K_T:bpm-load-heat-off'
     report_losses(ctx, diff_model(kind, rec, rec2, GROUP_TOL, state=False), rec['particles'], where, spec,
-                  chem=harness_chem(rec['particles']) if kind != 'sbm' else rec['composition'], skip=skip)
+                  chem=harness_chem(rec['particles']) if kind != 'sbm' else rec['composition'], skip=skip, override=override)
     if kind != 'sbm' and list(rec['chem_names']) != harness_chem(rec['particles']):
         ctx.violation('not-restored:composition', '%s: the model\'s chem_names %r is not the first-seen-order union of the particles\' '
                       'compositions %r (the file labels every soluble particle with it while m0 keeps the particle\'s order)'
@@ -1410,7 +1463,7 @@ def sim_plan(ctx):
     plan = [('sbm', {'kind': 'soluble'}), ('sbm', {'kind': 'inert'}),
             ('bpm', {'kind': 'mixed', 'ntracers': 1, 'track': False, 'current': 0.2, 'unsorted': True}),
             ('bpm', {'kind': 'soluble', 'ntracers': r.choice([2, 3]), 'track': True, 'current': 0.1, 'unsorted': True}),
-            ('bpm', {'kind': 'inert', 'ntracers': r.choice([1, 2]), 'track': r.random() < 0.5, 'current': 0.05}),
+            ('bpm', {'kind': 'inert', 'ntracers': r.choice([1, 2]), 'track': r.random() < 0.5, 'current': 0.05, 'jet_match': True}),
             ('bpm', {'kind': r.choice(['inert', 'mixed']), 'ntracers': 0, 'track': False, 'current': 0.}),
             ('spm', {'kind': 'soluble', 'unsorted': True}), ('spm', {'kind': 'inert'}), ('spm', {'kind': 'mixed', 'unsorted': True})]
     for i in range(ctx.n(0, 51)):
@@ -1567,6 +1620,8 @@ def _run(ctx, lean_ok, tmp):
     for kind in ('bpm', 'spm'):
         ctx.oblige('floor: %s simulations whose particles keep heat transfer on (K_T0 > 0, released warmer/colder than the water) went '
                    'through save -> load -> re-save -> re-load (%d)' % (kind, heat_on.get(kind, 0)), heat_on.get(kind, 0) >= 1, '')
+    ctx.oblige('coverage: a bent-plume particle with K_T > 0 released within 0.5 K of the jet water (first-row equilibrium) was saved and reloaded',
+               ctx.hist.get('bpm particle with K_T > 0 within 0.5 K of the plume water at the first row', 0) >= 1, '')
     # coverage matrix: model x particle kind, all the way to the second reload (recorded defects on the way are bypassed)
     need = [('sbm', 'soluble'), ('sbm', 'inert'), ('bpm', 'soluble'), ('bpm', 'inert'), ('bpm', 'mixed'), ('bpm', 'tracked'),
             ('spm', 'soluble'), ('spm', 'inert'), ('spm', 'mixed')]
